@@ -7,6 +7,9 @@ VERIF = os.path.dirname(os.path.dirname(os.path.abspath(__file__)))
 
 # id -> (technique, level text, level note, design ref)
 CHECKS = {
+    "C14": ("oracle over real formatter runs: re-parse with the real parser, span-free AST comparison, comment-sequence and fixed-point checks on corpus files, their layout/comment mutations and generated programs at 24 (width, indent) configurations",
+            "Runs the real mimium_fmt::pretty_print_cst on every shipped .mmm file that parses, on layout/comment mutations of them and on generated programs with randomised layout, at widths {1,8,20,40,50,80,120,200} x indents {2,4,8}; the output is re-parsed with the real parse_program/parse_to_expr and compared with the input (parse errors, span-insensitive tree equality, comment texts in order), and formatted again (fixed point). Sampled, not exhaustive; nothing is modelled.",
+            "Trusts the harness' own tree view of Program/Expr/Type/Pattern (spans and interned ids dropped) and the real tokenizer for comment extraction. 23 known formatter defects (KNOWN_FINDINGS.txt, scope=sig) are matched by exact signature; at a configuration whose output does not parse the AST and idempotence clauses are not evaluated.", "DESIGN.md §3 C14"),
     "C11": ("model-based oracle with unique power-of-two task weights: per-sample accumulator comparison of both runtimes against a multiset model",
             "Generated task sets (global scope / from dsp / from running tasks / self-rescheduling chains, fractional and equal times, up to 2000 pending, three insertion orders) are run on VM and WASM; every sample's accumulators must equal a 20-line model in which each task runs exactly once before dsp of sample floor(t). Unique weights turn a missing, early or duplicated run into one f64 mismatch.",
             "Effects commute so same-sample order is free; WASM is judged only on task sets outside the two recorded WASM findings (closures allocated in the per-tick arena, more than 40 tasks from global scope).", "DESIGN.md §3 C11"),
